@@ -52,7 +52,8 @@ CLAIMED = {
         "capture, not @error_ignore) and otherwise pass the value through; CommandPipeline._raise_subproc_error raises IFF (@error_raise "
         "or standalone with $XONSH_SUBPROC_CMD_RAISE_ERROR) and returns the terminal before raising; __bool__ <=> returncode == 0; "
         "returncode is 1 without a process else the last stage's; parse_proxy_return decodes int / 3rd element / else 0; "
-        "_boolop_contains_subproc sees helpers at any depth (loop invariant). Enum (complete): the @error_raise/@error_ignore rows of the "
+        "_boolop_contains_subproc sees helpers at any depth (loop invariant); CommandPipeline.__init__ leaves no process handle when a stage cannot be "
+        "spawned (so the pipeline reports failure) and otherwise makes the last stage the pipeline's process. Enum (complete): the @error_raise/@error_ignore rows of the "
         "real alias table. Bounded stand-in (not counted as proved): the real AST wrapper + runtime decision executed on every chain shape "
         "of up to 4 (thorough: 5) commands against reference short-circuit semantics.",
    note="Unverified: that the parser produces BoolOps/helper calls for &&/|| and for text that is / is not valid Python; that a failing "
@@ -176,6 +177,24 @@ CLAIMED = {
         "bounded check only), termination of the writer's recursion, LazyJSON._load_index / LJNode reads (bounded only), BaseShell history "
         "entry creation, slices through __getitem__ (bounded only), `history clear`. Trusted: pyvc engine + models + z3.",
    design="§3 C12"),
+ "C09": dict(
+   category="proof",
+   text="Effect-trace contracts on the exit paths that must undo things, for all pipeline lengths and every failing external: CommandPipeline.__init__ "
+        "(SubprocSpec objects as records in list slots; loop invariants): stages run once each, in order; when stage i cannot be spawned the "
+        "constructor starts nothing further, returns the terminal exactly once, closes every stage from i on in order and leaves no process "
+        "handle; otherwise the last stage is the pipeline's process and nothing is closed. PopenThread.__init__: every exception of the spawn "
+        "(OSError, ValueError, any other) after a signal handler was installed runs _clean_up exactly once before it escapes; on success the "
+        "handlers stay for the thread. PopenThread._clean_up / _restore_sigint / _restore_sigtstp / _restore_sigquit / _restore_sigwinch: each "
+        "saved handler goes back exactly once (main thread) and is forgotten, nothing is installed otherwise. "
+        "CommandPipeline._raise_subproc_error hands the terminal back exactly once before raising and not at all otherwise. Bounded stand-in "
+        "(not proved): 20 command shapes x 3 repetitions in a real headless session - descriptors, children, threads, cwd, std streams and the "
+        "SIGINT handler before/after.",
+   note="KNOWN FINDINGS (recorded, native check): `echo hi | nonexistent` leaves the started earlier stage's pipe ends and an unreaped child; an alias in a "
+        "non-last stage leaves its SIGINT handler installed; `yes | cat | head -n 1` can leave an unreaped child (timing). Unverified: terminal "
+        "ownership on a real tty, PipeChannel / safe_fdclose idempotence, proxies' _restore_sigint / _close_devnull, jobs.wait_for_active_job "
+        "reaping, cmds_to_specs' except-BaseException close (loop abstracted in C07), reader/closer thread schedules, Windows. ASSUMED: set-up "
+        "statements of PopenThread.__init__ other than the spawn do not raise once handlers are installed. Trusted: pyvc engine + models + z3/cvc5.",
+   design="§3 C09"),
 }
 NA = {
  "C01": "equivalence of two grammars (PLY LALR tables vs CPython's PEG parser) is not a function contract; no contract within reach can express or decide it (DESIGN §3 C01)",
